@@ -255,32 +255,42 @@ Definition dash_sp_to_us (u : str) : str := map (fun c => if (c =? 45) || (c =? 
 Definition site_enum_default_u (upper_t : str) : str := dash_sp_to_us upper_t.
 Definition site_enum_default (t : str) : str := dash_sp_to_us (map upper_ascii t).
 
-(* docstring sites *)
-Definition s_alias_for : str := [65;108;105;97;115;32;102;111;114;32].            (* `Alias for ` *)
-Definition esc_q3 : str := [92;34;92;34;92;34].                                     (* \`\`\` *)
+(* docstring sites  [after the fixes of F15c/d/g/k] *)
+(* documentation_writer.escape_docstring_text: NUL -> space, backslash doubled, then QQQ -> three escaped quotes *)
+Definition nul_sp (t : str) : str := map (fun c => if c =? 0 then 32 else c) t.
+Definition esc_q3 : str := [92;34;92;34;92;34].                                     (* three escaped quotes *)
+Definition doc_esc (t : str) : str := repl3 esc_q3 (dbl_bs (nul_sp t)).
+(* render_alias: NUL -> space, backslash doubled, EVERY double quote escaped (the text abuts the closing quotes) *)
+Definition alias_esc1 (c : N) : str :=
+  if c =? 0 then [32] else if c =? 92 then [92; 92] else if c =? 34 then [92; 34] else [c].
+Definition alias_esc (t : str) : str := flat_map alias_esc1 t.
+Definition s_alias_for : str := [65;108;105;97;115;32;102;111;114;32].            (* Alias for  *)
 Definition site_alias_doc (t : str) : str :=
-  match t with [] => [] | _ => q3 ++ s_alias_for ++ repl3 esc_q3 (dbl_bs t) ++ q3 end.
-Definition s_client_for_q : str := [67;108;105;101;110;116;32;102;111;114;32;39].   (* `Client for '` *)
-Definition s_q_endpoints : str := [39;32;101;110;100;112;111;105;110;116;115;46].   (* `' endpoints.` *)
-Definition site_tag_doc (t : str) : str := q3 ++ s_client_for_q ++ t ++ s_q_endpoints ++ q3.
-(* raw text on its own line(s) between a line QQQ and a line QQQ (overload docstring, wrapper classes,
-   client class docstring after its own clean-up): pre/post are the fixed template parts *)
-Definition site_block_doc (pre post t : str) : str := q3 ++ pre ++ t ++ post ++ q3.
+  match t with [] => [] | _ => q3 ++ s_alias_for ++ alias_esc t ++ q3 end.
+Definition s_client_for_q : str := [67;108;105;101;110;116;32;102;111;114;32;39].   (* Client for ' *)
+Definition s_q_endpoints : str := [39;32;101;110;100;112;111;105;110;116;115;46].   (* ' endpoints. *)
+Definition site_tag_doc (t : str) : str := q3 ++ s_client_for_q ++ doc_esc t ++ s_q_endpoints ++ q3.
+(* escaped text inside a hand-written docstring template (wrapper classes, overload docstring lines, client title):
+   pre/post are the fixed template parts around the interpolated text *)
+Definition site_block_doc (pre post t : str) : str := q3 ++ pre ++ doc_esc t ++ post ++ q3.
 (* the fixed template text after the interpolated value closes the docstring by itself (executable form, rest = []) *)
 Definition post_closes (post : str) : bool :=
   match post with c :: _ => negb (c =? 34) | [] => true end &&
   match lex_go true Nrm (post ++ q3) with Some (_, []) => true | _ => false end.
-
-(* raw text on a line of its own between a line QQQ and a line QQQ (overloaded-method docstring) *)
+(* the first template character after the escaped text: not a quote, not a backslash *)
+Definition sep_ok (sep : N) : bool := negb ((sep =? 34) || (sep =? 92) || bad_raw sep).
+(* text on a line of its own between a line QQQ and a line QQQ (overloaded-method docstring) *)
 Definition site_block_line (t : str) : str := site_block_doc [10] [10] t.
-(* client_visitor: first docstring line  {title} (version {version})  — version text is passed in *)
-Definition site_client_title (version t : str) : str := site_block_doc [10] (32 :: 40 :: [118;101;114;115;105;111;110;32] ++ version ++ [41; 10]) t.
+(* client_visitor: first docstring line  escape({title} (version {version}))  - version text is passed in *)
+Definition site_client_title (version t : str) : str :=
+  site_block_line (t ++ 32 :: 40 :: [118;101;114;115;105;111;110;32] ++ version ++ [41]).
 
 (* DocumentationWriter.render_docstring: text goes through textwrap (stdlib, external).  Its relevant
-   law, checked against the real output on every run: only WHITE SPACE is edited — every other
+   law, checked against the real output on every run: only WHITE SPACE is edited - every other
    character of t appears in the output in order, white space of t may be dropped / replaced by
    spaces and line breaks, spaces, tabs and line breaks may be inserted (column padding can be empty).
-   [layoutb t o] decides `o is such an edit of t` for the white-space-only inserted text. *)
+   [layoutb t o] decides that o is such an edit of t.  Each line of the layout is then escaped with
+   escape_docstring_text. *)
 Definition doc_ws (c : N) : bool :=   (* textwrap's whitespace + the extra characters str.splitlines() breaks at *)
   (c =? 9) || (c =? 10) || (c =? 11) || (c =? 12) || (c =? 13) || (c =? 32)
   || (c =? 28) || (c =? 29) || (c =? 30) || (c =? 133) || (c =? 8232) || (c =? 8233).
@@ -297,12 +307,24 @@ Fixpoint layoutb (t o : str) {struct o} : bool :=
            | [] => false
            end
   end.
-(* the docstring as emitted: QQQ + layout + QQQ where the layout ends with a line break *)
+(* inverse of the escaping on its image: backslash-backslash -> backslash, backslash-quote -> quote *)
+Fixpoint doc_unesc (e : str) : str :=
+  match e with
+  | c :: r => match r with
+              | d :: r' => if (c =? 92) && ((d =? 92) || (d =? 34)) then d :: doc_unesc r' else c :: doc_unesc r
+              | [] => [c]
+              end
+  | [] => []
+  end.
+Definition ends_lf (o : str) : bool := match rev o with c :: _ => c =? 10 | [] => false end.
+(* the docstring as emitted: QQQ + escape(layout) + QQQ where the layout ends with a line break *)
 Definition site_docwriter_rel (t out : str) : bool :=
   match out with
-  | a :: b :: c :: o => (a =? 34) && (b =? 34) && (c =? 34) &&
-      match rev o with
-      | z :: y :: x :: w :: ro => (z =? 34) && (y =? 34) && (x =? 34) && (w =? 10) && layoutb t (rev (w :: ro))
+  | a :: b :: c :: e3 => (a =? 34) && (b =? 34) && (c =? 34) &&
+      match rev e3 with
+      | z :: y :: x :: re => (z =? 34) && (y =? 34) && (x =? 34) &&
+          let e := rev re in let o := doc_unesc e in
+          str_eqb (doc_esc o) e && ends_lf o && layoutb (nul_sp t) o
       | _ => false
       end
   | _ => false
